@@ -28,13 +28,13 @@ def listIdxI {α} (xs : List α) (i : Int) : Outcome α :=
 /-- `binary.BigEndian.Uint16(s)`: panics when `len(s) < 2` -/
 def be16I (s : Bytes) : Outcome UInt16 :=
   match s with
-  | a :: b :: _ => .ok ((a.toUInt16 <<< 8) ||| b.toUInt16)
+  | a :: b :: _ => .ok (UInt16.ofNat (be16 a b))
   | _ => .panic
 
 /-- `binary.BigEndian.Uint32(s)`: panics when `len(s) < 4` -/
 def be32I (s : Bytes) : Outcome UInt32 :=
   match s with
-  | a :: b :: c :: d :: _ => .ok ((a.toUInt32 <<< 24) ||| (b.toUInt32 <<< 16) ||| (c.toUInt32 <<< 8) ||| d.toUInt32)
+  | a :: b :: c :: d :: _ => .ok (UInt32.ofNat (be32 a b c d))
   | _ => .panic
 
 /-- `net.IP.To16`: an IPv4 address as the IPv4-mapped IPv6 address, a 16-byte address itself, nil otherwise -/
